@@ -593,3 +593,20 @@ var strProp = h.Define(P, "strings", func(t *rapid.T) StrCase {
 func TestStrings(t *testing.T) { strProp.Check(t) }
 
 var _ = pb.KeyType_RSA
+
+// FuzzDID: coverage-guided search over identifier strings (parser grammar, canonical-identifier and no-panic oracles).
+func FuzzDID(f *testing.F) {
+	for i := 0; i < 6; i++ {
+		k := keys.Get(keys.AllAlgs[i%len(keys.AllAlgs)], 0)
+		f.Add(k.DID.String())
+	}
+	for _, s := range []string{"did:key:z", "did:key:", "did:web:x", "did:key:z6Mk", "did:key:f00", "did:key:z6LSbysY2xFMRpGMhb7tFTLMpeuPRaqaWM1yECx2AtzE3KCc"} {
+		f.Add(s)
+	}
+	f.Fuzz(func(t *testing.T, s string) {
+		if len(s) > 2048 {
+			return
+		}
+		strProp.One(t, StrCase{S: s})
+	})
+}
